@@ -332,7 +332,7 @@ def gen_cases(ctx):
     rng = ctx.rng
     cases = []
     cpus = CPUS_QUICK
-    per = ctx.scale(39, 390)
+    per = ctx.scale(50, 500)
     for cpu in cpus:
         for k in range(per):
             n = rng.choice([3, 5, 8, 12, 20])
